@@ -398,11 +398,14 @@ def predicate(case, res):
                 bad.append((key, "group %r includes %r which is not defined before it" % (g["id"], i), "defined before", gids))
         seen.add(g["id"])
     # validity when the basic properties were given and every input meets the schema facets
-    props = st["props"]
+    # "given its basic biophysical properties": judged by the setter CALLS that returned, not by the cell
+    called = [o for o, t in zip(case["ops"], trace) if o["op"] == "prop" and "state" in t]
+    added = [o for o, t in zip(case["ops"], trace) if o["op"] in ("seg", "unbranched") and "state" in t]
     facets = (len(ids) >= 1 and all(isinstance(i, int) and i >= 0 for i in ids)
+              and all((o["seg_id"] or 0) >= 0 for o in added if o["op"] == "seg")
               and all(nmlid(g["id"]) for g in st["groups"])
-              and all(v < 100 and nmlid(gr) for k in KINDS for v, gr in props[k])
-              and all(props[k] for k in KINDS[:3]))
+              and all(o["v"] < 100 and nmlid(o["group"]) for o in called)
+              and all(any(o["kind"] == k for o in called) for k in KINDS[:3]))
     if facets and not (fin["validate"] and fin["xsd"]):
         bad.append(("C15:invalid-cell", "the cell has its basic properties but validate=%s, xsd=%s: %s %s"
                     % (fin["validate"], fin["xsd"], fin.get("validate_msg", ""), fin.get("xsd_msg", "")),
